@@ -4,11 +4,13 @@ package c05
 import (
 	"fmt"
 	"go/ast"
+	"go/constant"
 	"go/token"
 	"go/types"
 
 	"rscheck/cfgq"
 	"rscheck/core"
+	"rscheck/lin"
 	"rscheck/pat"
 	"rscheck/rules/c10/flow"
 )
@@ -112,16 +114,6 @@ func (r *rs) header() {
 	}
 	rsp := flow.Obj(info, ab["_rsp"])
 	isRsp := flow.IsObj(info, rsp)
-	lenRsp := func(e ast.Expr) bool {
-		call, ok := ast.Unparen(e).(*ast.CallExpr)
-		return ok && flow.IsBuiltin(info, call, "len") && isRsp(call.Args[0])
-	}
-	firstByte := func(base func(ast.Expr) bool) func(ast.Expr) bool {
-		return func(e ast.Expr) bool {
-			ix, ok := ast.Unparen(e).(*ast.IndexExpr)
-			return ok && base(ix.X) && isConst(info, ix.Index, 0)
-		}
-	}
 	var ticks, sizes []cfgq.Point
 	var chanObj types.Object
 	for _, p := range g.Points(func(m ast.Node) bool { _, ok := m.(*ast.SendStmt); return ok }) {
@@ -140,37 +132,65 @@ func (r *rs) header() {
 		return
 	}
 	tick, size := ticks[0], sizes[0]
-	ok1, w1 := flow.OnlyVia(g, tick, func(f cfgq.Fact) bool { return flow.CmpIs(info, f, lenRsp, token.EQL, 0) })
-	c.Check("R4.frame", "waitRdbDump/tick-before-header-only", tick.Node().Pos(), ok1, "a 0 tick may be sent only while no header byte was stored (len(rsp) == 0): otherwise the LF that ends '$n\\r\\n' is swallowed as a keep-alive and the header never completes", w1...)
-	ok2, w2 := flow.OnlyVia(g, tick, func(f cfgq.Fact) bool { return flow.CmpIs(info, f, firstByte(flow.IsObj(info, buf)), token.EQL, '\n') })
-	c.Check("R4.frame", "waitRdbDump/tick-for-newline-only", tick.Node().Pos(), ok2, "a 0 tick may be sent only for a '\\n' byte: any other byte dropped here is a header byte ('$' or a digit) that is lost", w2...)
+	hdr := flow.NewBuffer(info, lit.Body, rsp, nil)                              // the accumulated header
+	one := flow.NewBuffer(info, lit.Body, buf, mustConstExpr(info, lit.Body, 1)) // the 1-byte read buffer
+	zero := lin.Form{Coef: map[string]int64{}}
+	r.guard("R4.frame", "waitRdbDump/tick-before-header-only", tick.Node().Pos(), g, tick, hdr.LenIs(0), flow.Opaque(g, hdr.Understood, rsp),
+		"a 0 tick may be sent only while no header byte was stored (len(rsp) == 0): otherwise the LF that ends '$n\\r\\n' is swallowed as a keep-alive and the header never completes")
+	r.guard("R4.frame", "waitRdbDump/tick-for-newline-only", tick.Node().Pos(), g, tick, one.Establishes(zero, '\n'), flow.Opaque(g, one.Understood, buf),
+		"a 0 tick may be sent only for a '\\n' byte: any other byte dropped here is a header byte ('$' or a digit) that is lost")
 	w3 := g.Path(cfgq.Query{From: tick, After: true, Avoid: isRead, Target: isNode(app)})
 	c.Check("R4.frame", "waitRdbDump/tick-not-stored", tick.Node().Pos(), w3 == nil, "after a keep-alive '\\n' the next byte must be read before anything is appended: a stored '\\n' makes the header start with a byte other than '$'", w3...)
 	w4 := g.Path(cfgq.Query{From: readPt, After: true, Avoid: cfgq.Or(isNode(app), isNode(tick.Node()), isRead), Target: isNode(size.Node())})
 	c.Check("R4.frame", "waitRdbDump/every-byte-stored", reads[0].Pos(), w4 == nil, "every byte read that is not a keep-alive must be appended to the header before the size is announced", w4...)
 	// header complete only at CR LF
-	ok5, w5 := flow.OnlyVia(g, size, func(f cfgq.Fact) bool {
-		b := pat.Expr("strings.HasSuffix(_s, _t)").Match(info, f.Expr, nil)
-		if b == nil || !f.Val || !isRsp(b["_s"].(ast.Expr)) {
-			return false
-		}
-		s, ok := core.StringConst(info, b["_t"].(ast.Expr))
-		return ok && (s == "\r\n" || s == "\n") // the first LF of a well-formed header is its last byte
-	})
-	c.Check("R4.frame", "waitRdbDump/complete-at-crlf", size.Node().Pos(), ok5, "the size may be announced only once the header ends in (CR) LF: stopping earlier leaves header bytes in the stream in front of the RDB, stopping later eats RDB bytes", w5...)
+	r.guard("R4.frame", "waitRdbDump/complete-at-crlf", size.Node().Pos(), g, size, hdr.Establishes(flow.Shift(hdr.Length, -1), '\n'), flow.Opaque(g, hdr.Understood, rsp),
+		"the size may be announced only once the header ends in (CR) LF (the first LF of a well-formed header is its last byte): stopping earlier leaves header bytes in the stream in front of the RDB, stopping later eats RDB bytes")
 	// the number
-	atoi, nb := pat.Stmt("_n, _err = strconv.Atoi(_s[_lo : len(_s) - _k])").Find(info, lit.Body, pat.Binds{"_s": ab["_rsp"]})
+	// the number: Atoi/ParseInt over a window of the header
+	var atoi *ast.AssignStmt
+	var win *ast.SliceExpr
+	core.Inspect(lit.Body, func(m ast.Node) bool {
+		as, ok := m.(*ast.AssignStmt)
+		if !ok || len(as.Rhs) != 1 || len(as.Lhs) != 2 || atoi != nil {
+			return true
+		}
+		call, ok := ast.Unparen(as.Rhs[0]).(*ast.CallExpr)
+		if f := core.CalleeFunc(info, call); !ok || f == nil || len(call.Args) == 0 || !(core.IsFunc(f, "strconv", "", "Atoi") || core.IsFunc(f, "strconv", "", "ParseInt")) {
+			return true
+		}
+		if se, isSlice := ast.Unparen(flow.ValueOf(info, lit.Body, ast.Unparen(call.Args[0]))).(*ast.SliceExpr); isSlice && isRsp(se.X) && se.Max == nil {
+			atoi, win = as, se
+		}
+		return true
+	})
 	if atoi == nil {
-		c.Undecidedf("R4.frame", "waitRdbDump/digits", lit.Pos(), "cannot find `n, err := strconv.Atoi(rsp[lo : len(rsp)-k])`")
+		c.Undecidedf("R4.frame", "waitRdbDump/digits", lit.Pos(), "cannot find `n, err := strconv.Atoi(rsp[lo:hi])`")
 		return
 	}
-	lo, okl := core.IntConst(info, nb["_lo"].(ast.Expr))
-	k, okk := core.IntConst(info, nb["_k"].(ast.Expr))
-	if !okl || !okk {
-		c.Undecidedf("R4.frame", "waitRdbDump/digits", atoi.Pos(), "slice bounds are not constants")
-	} else {
-		c.Check("R4.frame", "waitRdbDump/digits", atoi.Pos(), lo == 1 && k == 2, fmt.Sprintf("the size is the text between the 1-byte marker and the 2-byte CR LF (found rsp[%d : len-%d]): any other window makes Atoi fail or drop a digit for every well-formed header", lo, k))
+	loF, hiF := zero, hdr.Length
+	if win.Low != nil {
+		loF = lin.Of(info, win.Low)
 	}
+	if win.High != nil {
+		hiF = lin.Of(info, win.High)
+	}
+	back := lin.Form{Coef: map[string]int64{}, Const: hiF.Const - hdr.Length.Const}
+	for a, v := range hiF.Coef {
+		back.Coef[a] += v
+	}
+	for a, v := range hdr.Length.Coef {
+		back.Coef[a] -= v
+		if back.Coef[a] == 0 {
+			delete(back.Coef, a)
+		}
+	}
+	if len(loF.Coef) != 0 || len(back.Coef) != 0 {
+		c.Undecidedf("R4.frame", "waitRdbDump/digits", atoi.Pos(), "window %s is not rsp[const : len(rsp)-const]", c.Src(win))
+	} else {
+		c.Check("R4.frame", "waitRdbDump/digits", atoi.Pos(), loF.Const == 1 && back.Const == -2, fmt.Sprintf("the size is the text between the 1-byte marker and the 2-byte CR LF (found rsp[%d : len%+d]): any other window makes Atoi fail or drop a digit for every well-formed header", loF.Const, back.Const))
+	}
+	nb := pat.Binds{"_n": atoi.Lhs[0]}
 	nobj := flow.Obj(info, nb["_n"])
 	sv := size.Node().(*ast.SendStmt)
 	sent := unconv(info, flow.Resolve(info, lit.Body, unconv(info, sv.Value)))
@@ -181,7 +201,7 @@ func (r *rs) header() {
 	} else {
 		c.Undecidedf("R4.frame", "waitRdbDump/size-sent-unchanged", sv.Pos(), "announced value %s not recognised", c.Src(sv.Value))
 	}
-	okd, _ := g.Dominated(size, isNode(atoi))
+	okd, _ := g.Dominated(size, isNode(ast.Node(atoi)))
 	c.Check("R4.frame", "waitRdbDump/size-after-parse", sv.Pos(), okd, "the size is announced only after it was parsed")
 	// no read after the announcement (R1)
 	w6 := g.Path(cfgq.Query{From: size, After: true, Target: isRead})
@@ -200,7 +220,7 @@ func (r *rs) header() {
 		key   string
 		match func(cfgq.Fact) bool
 	}{
-		{"guard-marker", func(f cfgq.Fact) bool { return flow.CmpIs(info, f, firstByte(isRsp), token.EQL, '$') }},
+		{"guard-marker", hdr.Establishes(zero, '$')},
 		{"guard-positive", func(f cfgq.Fact) bool { return nonZero(info, f, flow.IsObj(info, nobj)) }},
 	} {
 		if ok, _ := flow.OnlyVia(g, size, gd.match); ok {
@@ -209,4 +229,11 @@ func (r *rs) header() {
 			c.Undecidedf("R4.frame", "waitRdbDump/"+gd.key, sv.Pos(), "reply guard not recognised (outside the property's premise, not a violation)")
 		}
 	}
+}
+
+// mustConstExpr finds (or makes) an expression with the constant integer value k, for lin.
+func mustConstExpr(info *types.Info, body ast.Node, k int64) ast.Expr {
+	lit := &ast.BasicLit{Kind: token.INT, Value: fmt.Sprint(k)}
+	info.Types[lit] = types.TypeAndValue{Type: types.Typ[types.UntypedInt], Value: constant.MakeInt64(k)}
+	return lit
 }
